@@ -275,7 +275,7 @@ def exact(rhol=0.0, rhor=1.0, pl=0.0, pr=1.0,
             break
         pold = p
 
-    if i == niter - 1:
+    if i >= niter - 1:
         printf(b"%s", b"Divergence in Newton-Raphson Iteration")
         return 1
 
